@@ -232,4 +232,37 @@ def unique (l : List ℚ) : List ℚ := l.foldr insertU []
 def toDenseNaN (cs : List NaNCurve) : List ℚ := unique (cs.flatMap (·.pts))
 def toDenseRag (cs : List RagCurve) : List ℚ := unique (cs.flatMap fun c => c.map Prod.fst)
 
+/-! ### the irregular mean: pooling, `approx` binning, a parameter smoother -/
+
+/-- `fdata_long.groupby(points).mean()`: one row per distinct point (sorted), the average
+of the values pooled at that point. -/
+def binned (long : List (ℚ × ℕ × ℚ)) : List (ℚ × ℚ) :=
+  (unique (long.map fun r => r.1)).map fun x =>
+    let ys := (long.filter fun r => r.1 = x).map fun r => r.2.2
+    (x, ys.sum / ys.length)
+
+/-- The samples handed to the mean smoother: the pooled long table, replaced by its
+per-point averages when `approx` and more than 2000 samples are pooled. -/
+def meanInputs (approx : Bool) (long : List (ℚ × ℕ × ℚ)) : List (ℚ × ℚ) :=
+  if approx ∧ 2000 < long.length then binned long else long.map fun r => (r.1, r.2.2)
+
+/-- `mean(points=d, method_smoothing=…)` with the smoother as a parameter `S samples d`. -/
+def meanNaN (S : List (ℚ × ℚ) → List ℚ → List ℚ) (approx : Bool) (d : List ℚ) (cs : List NaNCurve) : List ℚ :=
+  S (meanInputs approx (toLongNaN 0 cs)) d
+def meanRag (S : List (ℚ × ℚ) → List ℚ → List ℚ) (approx : Bool) (d : List ℚ) (cs : List RagCurve) : List ℚ :=
+  S (meanInputs approx (toLongRag 0 cs)) d
+
+/-- `inner_product(method_smoothing=…)` end to end: estimate the mean, centre, interpolate,
+dense Gram matrix. -/
+def innerProductNaN (S : List (ℚ × ℚ) → List ℚ → List ℚ) (approx : Bool) (d : List ℚ)
+    (cs : List NaNCurve) (σ2 : ℚ) (i k : ℕ) : ℚ := gramNaN d (meanNaN S approx d cs) cs σ2 i k
+def innerProductRag (S : List (ℚ × ℚ) → List ℚ → List ℚ) (approx : Bool) (d : List ℚ)
+    (cs : List RagCurve) (σ2 : ℚ) (i k : ℕ) : ℚ := gramRag d (meanRag S approx d cs) cs σ2 i k
+
+/-- `covariance(smooth=False)` end to end: estimate the mean, centre, pairwise-complete averages. -/
+def covarianceNaN (S : List (ℚ × ℚ) → List ℚ → List ℚ) (approx : Bool) (d : List ℚ)
+    (cs : List NaNCurve) (j k : ℕ) : ℚ := covNaN d (cs.map (centerNaN d (meanNaN S approx d cs))) j k
+def covarianceRag (S : List (ℚ × ℚ) → List ℚ → List ℚ) (approx : Bool) (d : List ℚ)
+    (cs : List RagCurve) (j k : ℕ) : ℚ := covRag d (cs.map (centerRag d (meanRag S approx d cs))) j k
+
 end FDA.Irr
